@@ -296,6 +296,44 @@ class DetCondition:
     notifyAll = notify_all
 
 
+class DetEvent:
+    def __init__(self):
+        self.flag = False
+
+    def set(self):
+        self.flag = True
+
+    def clear(self):
+        self.flag = False
+
+    def is_set(self):
+        return self.flag
+
+    isSet = is_set
+
+    def wait(self, timeout=None):
+        yield_(('evwait',), lambda: self.flag)
+        return True
+
+
+class DetSemaphore:
+    def __init__(self, value=1):
+        self.value = value
+
+    def acquire(self, blocking=True, timeout=None):
+        yield_(('sem',), lambda: self.value > 0)
+        self.value -= 1
+        return True
+
+    def release(self, n=1):
+        self.value += n
+
+    __enter__ = acquire
+
+    def __exit__(self, *a):
+        self.release()
+
+
 class DetQueue:
     def __init__(self, maxsize=0):
         self.items = []
@@ -384,6 +422,9 @@ def _fake_modules():
     for k in dir(_rt):          # anything without a controlled stand-in is the real thing
         if not k.startswith('__'):
             setattr(th, k, getattr(_rt, k))
+    th.Event = DetEvent
+    th.Semaphore = DetSemaphore
+    th.BoundedSemaphore = DetSemaphore
     th.Thread = DetThread
     th.RLock = DetRLock
     th.Lock = DetLock
@@ -391,8 +432,6 @@ def _fake_modules():
     th.current_thread = lambda: (_me().obj if _me() is not None and _me().obj is not None else _rt.current_thread())
     th.get_ident = _rt.get_ident
     th.local = _rt.local
-    th.Event = _rt.Event
-    th.Semaphore = _rt.Semaphore
     th.main_thread = _rt.main_thread
     th.enumerate = _rt.enumerate
     th.active_count = _rt.active_count
